@@ -47,6 +47,34 @@ def _packed_range(ob, fixed):
     return lo, lo + span
 
 
+def _split_top(src):
+    """split a python argument list at top-level commas"""
+    out, depth, cur, q = [], 0, '', None
+    for ch in src:
+        if q:
+            cur += ch
+            if ch == q:
+                q = None
+            continue
+        if ch in '\'"':
+            q = ch
+            cur += ch
+        elif ch in '([{':
+            depth += 1
+            cur += ch
+        elif ch in ')]}':
+            depth -= 1
+            cur += ch
+        elif ch == ',' and depth == 0:
+            out.append(cur.strip())
+            cur = ''
+        else:
+            cur += ch
+    if cur.strip():
+        out.append(cur.strip())
+    return out
+
+
 def unpack(ob, sel):
     vals = []
     width = 1
@@ -112,7 +140,7 @@ def _gen_cell_packed(modname, ob, fn, pres, post, raises, ret):
            'def cell(%s) -> %s:\n'
            '    """\n%s    """\n'
            '    sel = _R(sel)\n%s'
-           '    return _HM.%s(%s)\n') % (modname, modname, sig, ret, doc, ''.join(dec), fn, ', '.join(allargs))
+           '    return _HM.%s(%s)\n') % (modname, modname, sig, ret, doc, ''.join(dec), fn, ', '.join('%s=%s' % (a, a) for a in allargs))
     return src
 
 
@@ -231,7 +259,10 @@ def run_obligations(prop, modname, obs, tier='quick', label='E1'):
                     res.errors.append(dict(name=ob.name, reason='cannot decode packed selector from %r' % argsrc[:100]))
                     res.cells.append(rec)
                     continue
-                argsrc = ', '.join(repr(v) for v in vals) + ((',' + rest) if rest.strip() else '')
+                names = [i[0] for i in ob.packed]
+                rest_names = ob.argnames()
+                rest_vals = [x for x in _split_top(rest)] if rest.strip() else []
+                argsrc = ', '.join(['%s=%r' % (n, v) for n, v in zip(names, vals)] + ['%s=%s' % (n, v) for n, v in zip(rest_names, rest_vals)])
             rp = replay(modname, ob.fn, ob.post, ob.raises, argsrc, ob.confirm)
             rec['counterexample'] = argsrc[:300]
             rec['replay'] = rp.get('how', '')[:300]
